@@ -6,17 +6,24 @@ Per run:
      committed list (harness/props/c15_nesting.json, "functions") must still exist, expose __param_names__ and translate;
  (2) Coq obligations (vm_compute inside Coq, one boolean per item):
        wf:<model>        params_match_names && scalars_tfree && (parameters without effect = committed expectation)
-       nest:<pair>       nests A sigma complex simple           for every committed nesting pair
+       nest:<pair>       nests A sigma complex simple           for every committed nesting pair; two-sided pairs (the simple model
+                         is instantiated too: "simple_point") are decided by nests2 A sigma_c sigma_s complex simple
        equiv:<model>     equivariant A perm sigma prog          for every committed label-symmetric model
  (3) numerical predicates on the real code: every model at random in-bounds parameter vectors returns a finite,
      non-negative spectrum of the requested shape with extrap_x set; accepts exactly len(__param_names__) parameters;
      each nesting pair compared at the nesting point (exact: 1e-10 relative); symmetric models under label exchange at two
      time steps (operator-splitting error must shrink).
+ (4) mutation adequacy of the committed list (harness/props/c15_common.py, Python mirror of the normaliser; the mirror is
+     compared with Coq on every obligation of the run): every single-occurrence mutant of every model program of the CURRENT
+     translation must be killed by a committed obligation, except the mutants committed as unkillable (with the reason)
+     under "adequacy" in c15_nesting.json.  A surviving mutant that is not on that list is a hole opened by a source change.
 """
 import json, math, os, re, time
 from concurrent.futures import ThreadPoolExecutor
 from harness import lib
 from harness.translate import models_dsl as M, models_dsl_norm as N
+from harness.props import c15_common as K
+from harness.props.c15_common import parse_point_value
 
 DATA = os.path.join(os.path.dirname(os.path.abspath(__file__)), 'c15_nesting.json')
 PAIR_TOL = 1e-10
@@ -27,17 +34,6 @@ HEADER = '\n'.join(['From Coq Require Import QArith ZArith List Bool.',
                     'Import ListNotations.', 'Open Scope nat_scope.'])
 
 # ------------------------------------------------------------------------------------------------
-def parse_point_value(v, simple_names):
-    v = v.strip()
-    if re.fullmatch(r'-?\d+(\.\d+)?', v):
-        return N.C(v)
-    m = re.fullmatch(r'1\s*-\s*(\w+)', v)
-    if m and m.group(1) in simple_names:
-        return ['sub', N.C(1), ['var', simple_names.index(m.group(1))]]
-    if v in simple_names:
-        return ['var', simple_names.index(v)]
-    raise ValueError('nesting point value %r is not 0/1/a parameter of the simple model/1-parameter' % v)
-
 def gen_params(rng, names, budget_steps, Tmax=3.0):
     """random in-bounds parameter vector: nu log-uniform [1e-2,100], m in [0,10], fractions in (0.05,0.95), gamma in [-8,2];
     times uniform in [0, min(Tmax, budget_steps * 1e-3 / rate)] (rate = what the time-step rule divides by)"""
@@ -188,14 +184,14 @@ def run(ctx):
         if not ok:
             wf_failed[key] = diagnose_wf(progs[key], data)
 
-    pair_cases, pair_meta, pair_sg = [], {}, {}
+    pair_cases, pair2_cases, pair_meta, pair_sg = [], [], {}, {}
     for k, pr in enumerate(data['pairs']):
         if pr['complex'] not in progs or pr['simple'] not in progs:
             ctx.obligation('nest:%s' % pr['id'], False, 'translator', 'a model of the pair could not be translated')
             continue
         c, s = progs[pr['complex']], progs[pr['simple']]
         try:
-            sg = [parse_point_value(pr['point'][n], s['param_names']) for n in c['param_names']]
+            su = K.pair_setup(pr, c['param_names'], s['param_names'])
         except (KeyError, ValueError) as e:
             ctx.obligation('nest:%s' % pr['id'], False, 'translator', 'nesting point does not fit the current parameter names: %r' % (e,))
             if pr.get('expect') == 'finding':
@@ -204,12 +200,19 @@ def run(ctx):
                 ctx.violation('nesting pair %s cannot be formed with the current parameter names: %r' % (pr['id'], e), data={'pair': pr},
                               key=None, no_input=True, broken='nest:%s' % pr['id'])
             continue
-        pair_sg[pr['id']] = sg
-        A = M.assum_of(s['param_names'])
-        pair_cases.append((k, '(%s, %s, %s, %s)' % (M.coq_assum(A), M.coq_list([M.coq_expr(e) for e in sg]), M.coq_prog(c['prog']), M.coq_prog(s['prog']))))
+        pair_sg[pr['id']] = su
+        if su['two_sided']:
+            pair2_cases.append((k, '(%s, %s, %s, %s, %s)' % (M.coq_assum(su['A']), M.coq_list([M.coq_expr(e) for e in su['sgc']]),
+                                                              M.coq_list([M.coq_expr(e) for e in su['sgs']]), M.coq_prog(c['prog']), M.coq_prog(s['prog']))))
+        else:
+            pair_cases.append((k, '(%s, %s, %s, %s)' % (M.coq_assum(su['A']), M.coq_list([M.coq_expr(e) for e in su['sgc']]), M.coq_prog(c['prog']), M.coq_prog(s['prog']))))
         pair_meta[k] = pr
     nest_check = '(fun c => match c with (A, sg, pc, ps) => (nests A sg pc ps, 0%Z) end)'
     nest_res = ctx.coq_cases('nest', HEADER, pair_cases, nest_check, 'exact (boolean)', shard=32) if pair_cases else {}
+    nest2_check = '(fun c => match c with (A, sgc, sgs, pc, ps) => (nests2 A sgc sgs pc ps, 0%Z) end)'
+    nest_res = dict(nest_res)
+    nest_res.update(ctx.coq_cases('nest2', HEADER, pair2_cases, nest2_check, 'exact (boolean)', shard=32) if pair2_cases else {})
+    ctx.count('nesting_pairs_one_sided', len(pair_cases)); ctx.count('nesting_pairs_two_sided', len(pair2_cases))
     nest_ok = {}
     for k, pr in pair_meta.items():
         ok = nest_res.get(k, (False, 0))[0]
@@ -245,6 +248,9 @@ def run(ctx):
         sym_ok[sm['model']] = ok
         ctx.obligation('equiv:%s program invariant under label exchange with exchanged parameters' % sm['model'], ok, 'translator')
     ctx.checker_cmds.append('translator harness/translate/models_dsl.py over dadi/Demographics{1,2,3}D.py, PortikModels/*.py, DFE/DemogSelModels.py')
+
+    # ---- (4) mutation adequacy of the committed list (Python mirror; cross-checked against Coq) -----------------
+    adequacy(ctx, data, progs, broken_models, wf_res, wf_meta, nest_ok, sym_ok)
 
     # ---- (3) numerical predicates on the implementation ------------------------------------------------
     rng = ctx.rng
@@ -323,10 +329,22 @@ def run(ctx):
     chosen = pairs           # every committed pair in both tiers (they are cheap: small grids, short times)
     for pr in chosen:
         c, s = progs[pr['complex']], progs[pr['simple']]
+        su = pair_sg[pr['id']]
         d = dims_of(s['prog'])
         for v in range(ctx.pick(1, 2)):
-            ps = gen_params(rng, s['param_names'], budget // 2 if d < 3 else budget // 4)
-            pc = [N.evaluate(e, ps) for e in pair_sg[pr['id']]]
+            # one vector of the COMMON parameters (= the simple model's parameters for a one-sided pair); both models are run at
+            # their side of the nesting point
+            q = gen_params(rng, su['common'], budget // 2 if d < 3 else budget // 4)
+            if su['two_sided']:
+                # times as multiples of 2^-10 (sums/differences of times at the point are then exact in floating point);
+                # a time / rate the pair assumes > 0 is kept > 0
+                for i, n in enumerate(su['common']):
+                    if n.startswith('T'):
+                        q[i] = round(q[i] * 1024) / 1024.0
+                    if i in su['A']['pos'] and M.kind_of(n) == 'nonneg' and q[i] <= 0:
+                        q[i] = 1 / 1024.0
+            ps = [N.evaluate(e, q) for e in su['sgs']]
+            pc = [N.evaluate(e, q) for e in su['sgc']]
             ns = [rng.choice([4, 5]) for _ in range(d)]
             pts = rng.choice([12, 14]) if d >= 3 else rng.choice([16, 20])
             jid = 'pair|%s|%d' % (pr['id'], v)
@@ -456,8 +474,11 @@ def run(ctx):
                 ctx.obligations[-1]['known_key'] = pr.get('key')
             if not ok:
                 cn = pr['complex'].split(':')[-1]; sn = pr['simple'].split(':')[-1]
+                at = '%s' % {k: v for k, v in pr.get('point', {}).items() if k != v}
+                if pr.get('simple_point'):
+                    at += ' with %s at %s' % (sn, {k: v for k, v in pr['simple_point'].items() if k != v})
                 ctx.violation('%s%r differs from %s%r by %.3g of the largest entry (ns=%s, pts=%d): %s is not nested at %s' % (
-                              cn, tuple(pc), sn, tuple(ps), rel, ns, pts, sn, {k: v for k, v in pr.get('point', {}).items() if k != v}),
+                              cn, tuple(pc), sn, tuple(ps), rel, ns, pts, sn, at),
                               data={'job': job, 'result': r, 'pair': pr}, key=pr.get('key') if fnd else 'nesting:%s' % pr['id'])
         elif kind == 'probe':
             key, nme, p, q, _ = m if m[0] is not None else (jid.split('|')[1], jid.split('|')[2], job['sparams'], job['cparams'], None)
@@ -516,6 +537,79 @@ def run(ctx):
                 ctx.violation('program of %s is no longer invariant under the committed label exchange' % sm['model'], data={'symmetric': sm},
                               key=None, no_input=True, broken='equiv:%s' % sm['model'])
 
+def adequacy(ctx, data, progs, broken_models, wf_res, wf_meta, nest_ok, sym_ok):
+    """every single-occurrence mutant of the current programs must be killed by a committed obligation or be committed as unkillable"""
+    t0 = time.time()
+    com = data.get('adequacy', {})
+    unk = com.get('unkillable', {})
+    committed = {'%s:%s' % (f['file'], f['name']) for f in data['functions']}
+    cur = {k: r for k, r in progs.items() if k in committed}
+    if broken_models:
+        ctx.obligation('adequacy of the nesting list evaluated', False, 'translator',
+                       'not evaluated: %d committed model(s) could not be translated' % len(broken_models))
+        return
+    rows, ob, un = K.adequacy_table(data, cur)
+    # (a) the mirror must agree with Coq on every obligation of this run
+    coq = {}
+    for k, key in wf_meta.items():
+        if key in cur:
+            coq['wf:%s' % key] = wf_res.get(k, (False, 0))[0]
+    for pid, ok in nest_ok.items():
+        coq['nest:%s' % pid] = ok
+    for mk, ok in sym_ok.items():
+        coq['equiv:%s' % mk] = ok
+    dis = sorted(o for o, v in ob.base.items() if o in coq and bool(coq[o]) != bool(v))
+    ctx.obligation('Python mirror of the normaliser agrees with Coq on the %d obligations of this run' % len([o for o in ob.base if o in coq]),
+                   not dis, 'translator', '; '.join(dis[:6]))
+    if dis:
+        ctx.violation('the Python mirror of norm/nests/equivariant disagrees with Coq on %s' % ', '.join(dis[:6]), data={'obligations': dis},
+                      key=None, no_input=True, broken='mirror-agrees-with-coq')
+    # (b) wrapper provenance: the program of a wrapper is its callee's program at the call tuple
+    ctx.obligation('wrapper models reconstruct from their callee (%d wrappers)' % len(un.callee), not un.bad, 'translator', '; '.join(un.bad[:6]))
+    # (c) the table
+    failing_base = {o for o, v in ob.base.items() if not v}
+    hit = {}                   # unit -> failing base obligation touching one of its affected models
+    for o, models, _ in ob.items:
+        if o in failing_base:
+            for m in models:
+                hit.setdefault(m, o)
+    surv, skipped = [], 0
+    for r in rows:
+        if r['killed_by']:
+            continue
+        aff = un.affected(r['model'])
+        if any(m in hit for m in aff):
+            skipped += 1            # an obligation of this model fails on the current source: that failure is reported on its own
+            continue
+        surv.append(r)
+    sm = K.summarize(rows)
+    holes = [r for r in surv if r['key'] not in unk]
+    stale = sorted(k for k in unk if k not in {r['key'] for r in surv})
+    ctx.stats['adequacy'] = {'mutants': sm['mutants'], 'mutants_killed': sm['mutants_killed'], 'occurrences': sm['occurrences'],
+                             'occurrences_killed': sm['occurrences_killed'], 'surviving_mutants_committed_unkillable': len(surv) - len(holes),
+                             'holes': len(holes), 'not_evaluated_because_an_obligation_of_the_model_fails': skipped,
+                             'committed': {k: com.get(k) for k in ('mutants', 'mutants_killed', 'occurrences', 'occurrences_killed', 'occurrences_unkillable')},
+                             'unkillable (listed with reasons in c15_nesting.json "adequacy")': sorted(r['key'] for r in surv if r['key'] in unk),
+                             'seconds': round(time.time() - t0, 2)}
+    ctx.count('adequacy_mutants', sm['mutants']); ctx.count('adequacy_mutants_killed', sm['mutants_killed'])
+    ctx.notes.append('adequacy: %d occurrences (%d single-occurrence mutants), %d occurrences killed, %d mutants unkillable (listed), %d holes%s' % (
+        sm['occurrences'], sm['mutants'], sm['occurrences_killed'], len(surv) - len(holes), len(holes),
+        ', %d not evaluated (an obligation of the model fails)' % skipped if skipped else ''))
+    if stale:
+        ctx.notes.append('adequacy: %d committed unkillable mutants are now killed or gone: %s' % (len(stale), '; '.join(stale[:4])))
+    if (sm['mutants'], sm['occurrences']) != (com.get('mutants'), com.get('occurrences')):
+        ctx.notes.append('adequacy: the current translation has %d occurrences / %d mutants, the committed table %s / %s (source changed)' % (
+            sm['occurrences'], sm['mutants'], com.get('occurrences'), com.get('mutants')))
+    by_unit = {}
+    for r in holes:
+        by_unit.setdefault(r['model'], []).append(r)
+    ctx.obligation('adequacy: every single-occurrence mutant of the %d model programs is killed by a committed obligation or committed as unkillable' % len(cur),
+                   not holes, 'translator', '; '.join(r['key'] for r in holes[:8]))
+    for unit, rs in sorted(by_unit.items()):
+        ctx.violation('hole in the nesting list opened by a source change: %d single-occurrence mutant(s) of %s survive every committed obligation, e.g. %s' % (
+                      len(rs), unit, '; '.join(r['key'].split('|', 1)[1] for r in rs[:4])),
+                      data={'unit': unit, 'mutants': [r['key'] for r in rs]}, key=None, no_input=True, broken='adequacy:%s' % unit)
+
 def diagnose_wf(r, data):
     names = r['param_names']; unp = r['unpacked']
     used = M.prog_vars(r['prog'])
@@ -533,15 +627,14 @@ def diagnose_wf(r, data):
         msgs.append('parameters without effect on the normalised program: %s (committed expectation: %s)' % (ineff or 'none', exp or 'none'))
     return '; '.join(msgs) or 'see Coq output'
 
-def diagnose_pair(pr, progs, sg):
+def diagnose_pair(pr, progs, su):
     c, s = progs[pr['complex']], progs[pr['simple']]
-    A = M.assum_of(s['param_names'])
-    a = N.norm(A, N.map_prog(lambda e: N.subst(sg, e), c['prog']))
-    b = N.norm(A, s['prog'])
+    a = K.side_norm(su['A'], su['sgc'], c['prog'])
+    b = K.side_norm(su['A'], su['sgs'], s['prog'])
     d = N.first_difference(a, b)
     if d is None:
         return 'Python mirror of the normaliser sees no difference (Coq decides)'
     k, i, j = d
-    sn = s['param_names']
-    return 'first difference at instruction %d: complex at the point = %s ; simple = %s' % (
-        k, N.show_instr(i, sn) if i else 'end', N.show_instr(j, sn) if j else 'end')
+    sn = su['common']
+    return 'first difference at instruction %d: complex at the point = %s ; simple%s = %s' % (
+        k, N.show_instr(i, sn) if i else 'end', ' at its point' if su['two_sided'] else '', N.show_instr(j, sn) if j else 'end')
